@@ -93,8 +93,18 @@ inductive Ret
 deriving DecidableEq, Repr
 
 inductive RCt
-  | none | json | octet
+  | none | json | octet | smile
 deriving DecidableEq, Repr
+
+/-- the registered response encodings (`ConjureRuntime::new`: JSON, then Smile) -/
+inductive Enc
+  | json | smile
+deriving DecidableEq, Repr
+
+/-- `Encoding::content_type` -/
+def Enc.ct : Enc → RCt
+  | .json => .json
+  | .smile => .smile
 
 structure Resp where
   status204 : Bool
@@ -111,6 +121,26 @@ def respond : Produces → Ret → Option Resp
   | .optBinary, .stream b => some { status204 := false, ct := .octet, body := b }
   | .optBinary, .noStream => some { status204 := true, ct := .none, body := [] }
   | _, _ => none
+
+/-- `StdResponseSerializer` / `CollectionResponseSerializer` for a request whose `Accept` the runtime negotiated
+to the encoding `e` (C11): the body is the value's document in `e`, labelled with `e`'s own content type; an
+empty collection or absent optional travels as 204 with no body under every encoding -/
+def respondIn (e : Enc) (p : Produces) (isDefault : Bool) (doc : Enc → Bytes) : Option Resp :=
+  match p with
+  | .std => some { status204 := false, ct := e.ct, body := doc e }
+  | .collection =>
+    if isDefault then some { status204 := true, ct := .none, body := [] }
+    else some { status204 := false, ct := e.ct, body := doc e }
+  | _ => none
+
+/-- a client that asked for either encoding reads the response by the Content-Type it declares (the repository's
+own clients ask for JSON only; a `#[conjure_client]` method may name any `DeserializeResponse`) -/
+def readByCt (r : Resp) (chunks : List Body.Chunk) (parse : Enc → Bytes → Body.Parse) : Body.ClientResult :=
+  if r.status204 then .default_
+  else match r.ct with
+    | .json => Body.decodeSerializable true chunks (parse .json)
+    | .smile => Body.decodeSerializable true chunks (parse .smile)
+    | _ => .error
 
 /-- which `decode_*_response` the generated client calls for a return type -/
 def clientKind : Produces → Body.Kind
@@ -172,6 +202,17 @@ def handle : List String → String
               | .uri u => s!"uri={Hex.hex u} headers={showHeaders (hs ++ body ++ accept)}")
         | _, _ => "bad-op")
     | _, _, _ => "bad-op"
+  | ["resp", enc, prod, dflt] =>
+    -- status and Content-Type of a serializable response negotiated to `enc`
+    let e? : Option Enc := if enc == "json" then some .json else if enc == "smile" then some .smile else none
+    let p? : Option Produces := if prod == "std" then some .std else if prod == "collection" then some .collection else none
+    match e?, p? with
+    | some e, some p =>
+      (match respondIn e p (dflt == "1") (fun _ => []) with
+        | some r => (if r.status204 then "204 " else "200 ") ++
+            (match r.ct with | .none => "none" | .json => "application/json" | .octet => "application/octet-stream" | .smile => "application/x-jackson-smile")
+        | none => "bad-op")
+    | _, _ => "bad-op"
   | ["noop"] => "noop"
   | _ => "bad-op"
 
